@@ -1022,6 +1022,15 @@ def wiring():
                     args += sorted(((kw.arg or "**"), src_(kw.value)) for kw in n.keywords)
                     rows.append((f"{cls}.{fn.name}" + (f"#{k}" if k else ""), [("callee", callee[5:])] + args))
                     k += 1
+    # attributes a component's constructor derives from its arguments (inputs of the generated terms): what they are made of
+    for rel, cls in [("alternatives/wdm.py", "WDM")]:
+        mod = Module(rel)
+        for fn in mod.classes[cls].body:
+            if isinstance(fn, ast.FunctionDef) and fn.name == "__init__":
+                for a_ in ast.walk(fn):
+                    if isinstance(a_, ast.Assign) and len(a_.targets) == 1 and isinstance(a_.targets[0], ast.Attribute) and isinstance(a_.targets[0].value, ast.Name) \
+                            and a_.targets[0].value.id == "self":
+                        rows.append((f"{cls}.__init__.{a_.targets[0].attr}", [("callee", "="), ("value", ast.unparse(a_.value))]))
     # stable site names: `Class.method`, or `Class.method/callee` when a method makes several recorded calls (independent of the
     # order of the statements)
     import collections
